@@ -79,6 +79,30 @@ PREP_UNITS = {"quick": ["prep_unit_n2_noincl_req", "prep_unit_n2_noincl_any"],
               "thorough": ["prep_unit_n2_noincl_req", "prep_unit_n2_noincl_any", "prep_unit_n2_h0_req", "prep_unit_n2_h0_any", "prep_unit_n3_noincl_req", "prep_unit_n3_noincl_any"]}
 
 
+def _c05_key(c):
+    """quick tier of C05: one GET instance per If-Range situation."""
+    if c["method"] != "GET" or c["focus"] == 2:
+        return "skip"
+    if c["group"] == "single":
+        if c["ir"] == "same":
+            return ("single-same", c["etag"]) if c["etag"] in ("strong", "weak") else "skip"
+        return ("single", c["ir"])
+    if c["group"] == "multi" and c["ir"] == "same":
+        return "multi-same"
+    return "skip"
+
+
+def _serve_weight(h):
+    """206 / multipart instances (Range honoured) peak at 20-30 GB: at most two at a time."""
+    if "::mpgen::" in h:
+        return 1
+    n = h.split("::")[-1]
+    honoured = "_absent" in n or ("_same" in n and ("_estrong_" in n or "_ecomma_" in n))
+    if (n.startswith("serve_single_") and honoured) or (n.startswith("serve_multi_") and honoured):
+        return 8
+    return 4
+
+
 def unit_serve(select, panic_tags=("C13",), precond=False, mp=None, prep=False, qkey=None, qcap=1):
     """select(cfg) -> bool picks generated serve_cfg instances; precond adds the precond_gNN groups;
     mp(cfg) -> bool picks one-poll instances of the MultipartStream state machine.
@@ -92,7 +116,7 @@ def unit_serve(select, panic_tags=("C13",), precond=False, mp=None, prep=False, 
             kept = []
             for n in names:
                 k = qkey(meta["serve"][n])
-                if seen.get(k, 0) < qcap:
+                if k != "skip" and seen.get(k, 0) < qcap:
                     seen[k] = seen.get(k, 0) + 1
                     kept.append(n)
             names = kept
@@ -118,7 +142,7 @@ def unit_serve(select, panic_tags=("C13",), precond=False, mp=None, prep=False, 
         "weight": 4,
         # the one-poll multipart instances and the precondition groups are small problems
         # 206 / multi-range instances peak at 20-30 GB: at most two of them at a time
-        "weight_of": lambda h: 1 if "::mpgen::" in h else (8 if ("serve_multi_" in h or "serve_single_" in h) else 4),
+        "weight_of": _serve_weight,
         "mem_kb": 40_000_000,
         "timeout": {"quick": 1500, "thorough": 3600},
     }
@@ -322,7 +346,7 @@ PROPS["C04"] = {
 PROPS["C05"] = {
     "units": lambda tier, seed: [
         unit_serve(g("single", "multi", "unsat", ir=("same", "other", "weak", "date")), panic_tags=("C13",),
-                   qkey=lambda c: (c["group"], c["ir"], c["etag"]) if c["method"] == "GET" and c["focus"] != 2 else ("head", c["group"])),
+                   qkey=_c05_key, qcap=1),
         unit_etag(["etag_eq_sym"]),
     ],
     "explanation": "serve() with Range + If-Range in {entity's own tag (strong / weak / none), another tag, weak variant, the served "
